@@ -192,6 +192,13 @@ func genNonMembers(t *rapid.T, names []string, fanout int) []string {
 			out = append(out, strings.Repeat("0", pad)+m)
 		}
 	}
+	// proper suffixes and prefixes of members (a lookup must match whole names only)
+	for i := 0; i < 6 && len(names) > 0; i++ {
+		m := names[rapid.IntRange(0, len(names)-1).Draw(t, "sfx")]
+		for k := 1; k < len(m) && k <= 6; k++ {
+			out = append(out, m[k:], m[:len(m)-k])
+		}
+	}
 	return out
 }
 
@@ -338,13 +345,14 @@ func TestC02_P_DirIsMap(t *testing.T) {
 // Threshold straddle: entry sets whose estimated size is exactly threshold-1, threshold, threshold+1.
 func c02ThresholdSet(target int, salt int) []entrySpec {
 	var es []entrySpec
-	cl := sumRaw(nil).ByteLen()
 	total := 0
+	lastCidLen := sumRaw(nil).ByteLen()
 	for i := 0; ; i++ {
 		name := fmt.Sprintf("%04d-%d-%s", i, salt, strings.Repeat("n", 190))
-		if total+len(name)+cl > target-(cl+1) {
-			// last entry absorbs the remainder
-			rem := target - total - cl
+		e := entryFor(name, salt) // mixed link lengths
+		if total+len(name)+e.Cid.ByteLen() > target-(lastCidLen+1) {
+			// the last entry (a CIDv1 raw link) absorbs the remainder exactly
+			rem := target - total - lastCidLen
 			if rem < 1 {
 				panic("bad threshold construction")
 			}
@@ -352,11 +360,11 @@ func c02ThresholdSet(target int, salt int) []entrySpec {
 			for len(last) < rem {
 				last += "z"
 			}
-			es = append(es, entryFor(last[:rem], salt))
+			es = append(es, entryForKind(last[:rem], salt, 0))
 			return es
 		}
-		es = append(es, entryFor(name, salt))
-		total += len(name) + cl
+		es = append(es, e)
+		total += len(name) + e.Cid.ByteLen()
 	}
 }
 
